@@ -460,8 +460,8 @@ func TestC17(t *testing.T) {
 	runDirect(r, "direct", r.N(20000, 900000), false)
 	runChain(r, r.N(3000, 100000))
 	runDirect(r, "loader", r.N(150, 4000), true)
-	runE2EInitial(r, r.N(60, 1500), 8)
-	runE2EChains(r, r.N(300, 12000))
+	runE2EInitial(r, r.N(150, 3000), 8)
+	runE2EChains(r, r.N(1500, 40000))
 }
 
 func runDirect(r *lib.Run, class string, n int, viaLoader bool) {
